@@ -402,7 +402,7 @@ def c15_build(dora, boots, src, kind, cg, gc, pert, outdir):
     return p.returncode, arts, p.stderr.decode(errors="replace")[-600:]
 
 
-def c15(tier):
+def c15(tier, replay_index=None):
     import shutil
     t0 = time.time()
     dbg = build_repo(("dora", "dora-runtime", "dora-startup"))
@@ -485,6 +485,15 @@ def c15(tier):
             return ("artifact-differs", "%s of %s (%s, %s): %r" % (r["kind"], os.path.basename(r["src"]), r["cg"], r["gc"], [h[:12] if h else None for h in hashes]))
         return None
 
+    if replay_index is not None:
+        r = task(replay_index)
+        v = classify(r)
+        shutil.rmtree(base, ignore_errors=True)
+        if v is None:
+            print("REPLAY-RESULT ok")
+            return 0
+        print("REPLAY-RESULT violation class=%s detail=%s" % v)
+        return 1
     done = pool_run(task, lambda r: r, lambda r, res: classify(r), budget, stop_on_violation=True)
     evals = 0
     compiled = 0
@@ -601,7 +610,7 @@ def c18_damage(data, fault):
     raise ValueError(kind)
 
 
-def c18(tier):
+def c18(tier, replay_case=None):
     import shutil, resource
     t0 = time.time()
     dbg = build_repo(("dora", "dora-runtime", "dora-startup"))
@@ -742,6 +751,18 @@ def c18(tier):
             return ("wrong-program", "consumer %s accepted the damaged package (%s) and produced a different artifact" % (r["consumer"], r["fault"]))
         return None
 
+    if replay_case is not None:
+        res = execute(replay_case)
+        v = classify(replay_case, res)
+        if v is None and replay_case.get("fault", [""])[0] == "truncate" and replay_case.get("consumer") == "decoder" and res["rc"] == 0:
+            v = ("truncation-accepted", "truncated package accepted by the decoder")
+        shutil.rmtree(base, ignore_errors=True)
+        if v is None:
+            print("REPLAY-RESULT ok (exit status %s)" % res["rc"])
+            return 0
+        print("REPLAY-RESULT violation class=%s detail=%s" % v)
+        return 1
+
     # exhaustive single-byte truncation of the smallest package through the real decoder
     trunc_done = 0
     trunc_vio = []
@@ -854,3 +875,21 @@ def c18(tier):
                     "consumers run under RLIMIT_AS = 6 GiB so that a corrupted length prefix cannot exhaust the machine"])
     log("C18: %d damaged-package runs + %d truncation points, outcomes %s, %d violation class(es), %.1fs" % (len(done), trunc_done, outcome, len(reported), wall))
     return exit_code
+
+
+def c18_replay(path):
+    obj = json.load(open(path))
+    case = obj["case"]
+    if "fault" not in case:
+        print("REPLAY-RESULT this replay describes a fault-free pipeline check; run bin/check C18 instead")
+        return 2
+    return c18("quick", replay_case=case)
+
+
+def c15_replay(path):
+    obj = json.load(open(path))
+    idx = obj.get("task", {}).get("index", -1)
+    if idx < 0:
+        print("REPLAY-RESULT bootstrap-chain violations are replayed by bin/check C15 --tier thorough")
+        return 2
+    return c15("quick", replay_index=idx)
